@@ -499,7 +499,7 @@ class Inliner:
         callee, recv, kind = r
         if not is_artefact(self.rel, callee, nested=(kind == "closure")):
             return None
-        if any(ast.unparse(d) not in ("staticmethod", "classmethod") for d in callee.decorator_list):
+        if any(ast.unparse(d).split(".")[-1] not in ("staticmethod", "classmethod", "no_type_check", "override", "final") for d in callee.decorator_list):
             return None        # a decorated helper is not its body (memoisation, locking, context managers ...): never inlined
         return callee, recv, kind
 
